@@ -190,7 +190,7 @@ func layProof(layout int, items [][]byte) ([][]byte, *arena) {
 }
 
 func checkC17(run *mon.Run, rng *mon.Rand, thorough bool) {
-	run.Rule = "differential cases against an independent Keccak/ADR-028 implementation (itself pinned to python hashlib vectors); a case is non-trivial and distinct by (function, input-class, layout) where input classes are lattice/boundary classes of the arguments"
+	run.Rule = "differential cases against an independent Keccak/ADR-028 implementation (itself pinned to python hashlib vectors); a case is non-trivial and distinct by (function, input-class, layout) where input classes are lattice/boundary classes of the arguments Plus: 16 goroutines calling all format functions concurrently on their own inputs (thorough: under the race detector); handler-level claims with lower- and upper-case receivers."
 	run.Assumptions = []string{"python3 hashlib SHA3-256/SHA-256 (used once to pin vectors) is correct", "hash collisions are not searched for"}
 	for _, c := range []string{"vectors.ref", "vectors.chain", "diff.leaf", "diff.node", "diff.node.commutative", "diff.root", "diff.output_root", "diff.l2denom", "diff.bridge_addr",
 		"purity.args_unchanged", "purity.layout_independent", "handler.layout_independent", "handler.leaf_commits_strings_verbatim"} {
